@@ -24,6 +24,9 @@ CONSTANTS Ops,        \* subset of {"acq","nowait","rel","yield"}
           MaxEnv,     \* environment actions per behaviour
           Fast,       \* fast_acquire
           EnvKinds,   \* subset of {"cancel","native"}
+          Cleanup,    \* TRUE: a client that is cancelled runs its remaining operations as clean-up inside
+                      \* "with CancelScope(shield=True):" before it re-raises (its task then has a
+                      \* non-zero cancellation-request count while it queues for the lock)
           Retry       \* TRUE: a client whose scope absorbed its cancellation opens a fresh scope and
                       \* carries on with its remaining operations (the move_on_after pattern)
 
@@ -34,7 +37,8 @@ VARIABLES L,          \* the lock
 vars == <<K, L, E, hist, pst, pbad>>
 View == <<K, L, E, pst, pbad>>
 
-Client0 == <<Frame("client", "init", 0, "")>>
+NoClean == [cl |-> FALSE, exc |-> Val]       \* b field of the client frame: in clean-up? / exception to re-raise
+Client0 == <<Frame("client", "init", 0, NoClean)>>
 
 Init ==
   /\ K = KInit([t \in Task |-> Client0], [t \in Task |-> NOSCOPE])
@@ -107,15 +111,25 @@ ClientRet(t) ==
   /\ LET r == Reg(K, t)
          wasAcq == t \in SeqSet(pst.inprog)
      IN /\ IF wasAcq THEN Feed(Ev("end", t, "acq", ResOf(r), L)) ELSE UNCHANGED <<pst, pbad>>
-        /\ K' = SetPc(K, t, IF IsCancel(r) THEN "fin" ELSE "choose")
+        /\ K' = IF IsCancel(r) /\ Cleanup /\ ~Top(K, t).b.cl
+                THEN \* except CancelledError: with CancelScope(shield=True): <remaining operations>; raise
+                     LET q1 == SetTop(K, t, [Top(K, t) EXCEPT !.b = [cl |-> TRUE, exc |-> r], !.pc = "choose"])
+                     IN ScopeEnter([q1 EXCEPT !.T[t].reg = Val], t, TRUE, INF, FALSE, "cleanup")
+                ELSE SetPc(K, t, IF IsCancel(r) THEN "fin" ELSE "choose")
   /\ UNCHANGED <<L, E, hist>>
 
 \* leave: "finally: release if holding", then __exit__ of the task's scope
 ClientFin(t) ==
   /\ At(K, t, "client", "fin")
   /\ LET holding == pst.holder = t
-         r == IF holding THEN LockRelease(K, L, t) ELSE [q |-> K, lk |-> L, err |-> FALSE]
-         x == ScopeExit(r.q, t, Reg(K, t))
+         incl == Top(K, t).b.cl
+         \* leave the shielded clean-up scope first; then "raise" (the saved cancellation, unless the
+         \* clean-up itself was interrupted), "finally: release if holding", __exit__ of the task's scope
+         x1 == IF incl THEN ScopeExit(K, t, Reg(K, t)) ELSE [q |-> K, reg |-> Reg(K, t)]
+         reg2 == IF incl /\ ~IsExc(x1.reg) THEN Top(K, t).b.exc ELSE x1.reg
+         r == IF holding THEN LockRelease(x1.q, L, t) ELSE [q |-> x1.q, lk |-> L, err |-> FALSE]
+         x0 == ScopeExit(r.q, t, reg2)
+         x == [x0 EXCEPT !.q = SetTop(x0.q, t, [Top(x0.q, t) EXCEPT !.b = NoClean])]
          again == Retry /\ x.caught
          rel == Ev("rel", t, "rel", IF r.err THEN "error" ELSE "ok", r.lk)
          cdone == [ev |-> "cdone", t |-> t]
